@@ -151,3 +151,31 @@ __CPROVER_ensures(__CPROVER_return_value == (p_iteration < 0 ? -1 : p_iteration)
 ;
 void h_setiter(void) { int p_iteration; w_setiter(p_iteration); CANARY(); }
 #endif
+
+/* ===================================================================================================================== */
+#ifdef INST_GATE
+/* PROPERTY (C16): in the simplex loop of solve() a pivot (enter() resp. leave()) is started only while the iteration limit - if
+   one is set (>= 0) - has not been reached and the interrupt flag - if one is given - is not raised; otherwise the loop is left
+   with the corresponding abort status (iteration limit: ABORT_ITER; interrupt: ABORT_TIME) and `stop` set.
+   By induction over the pivots (each raises iteration() by one: SPxBasisBase::change, not under contract) no more than maxIters
+   iterations are performed in this loop. */
+#define ITER_STOP (maxIters >= 0 && iterCount >= maxIters)
+#define INTR_STOP (haveInterrupt && flag)
+int w_gate(int maxIters, int iterCount, int haveInterrupt, int flag, int* m_status, int* stop)
+__CPROVER_requires(__CPROVER_is_fresh(m_status, sizeof(int)) && __CPROVER_is_fresh(stop, sizeof(int)))
+__CPROVER_requires((haveInterrupt == 0 || haveInterrupt == 1) && (flag == 0 || flag == 1) && (*stop == 0 || *stop == 1))
+__CPROVER_assigns(*m_status, *stop)
+__CPROVER_ensures((__CPROVER_return_value == 1) == (!ITER_STOP && !INTR_STOP) && (__CPROVER_return_value == 0 || __CPROVER_return_value == 1))
+__CPROVER_ensures(__CPROVER_return_value == 1 ==> (*m_status == __CPROVER_old(*m_status) && *stop == __CPROVER_old(*stop)))
+__CPROVER_ensures(ITER_STOP ==> (*m_status == ST_ABORT_ITER && *stop == 1))
+__CPROVER_ensures((!ITER_STOP && INTR_STOP) ==> (*m_status == ST_ABORT_TIME && *stop == 1))
+/* a pivot is never started with the limit already used up */
+__CPROVER_ensures((__CPROVER_return_value == 1 && maxIters >= 0) ==> iterCount < maxIters)
+;
+void h_gate(void)
+{
+   int maxIters, iterCount, haveInterrupt, flag; int* m_status; int* stop;
+   w_gate(maxIters, iterCount, haveInterrupt, flag, m_status, stop);
+   CANARY();
+}
+#endif
